@@ -218,6 +218,8 @@ fn on_fields(fields: &Fields, has_self: bool, encoding: Encoding) -> syn::Result
             steps.push(quote! {
                 let mut __num777 = 0;
                 let mut __len777 = 0;
+                // Tag bytes of nil fields, which are written iff a non-nil field follows.
+                let mut __nil777 = 0;
             });
             for field in fields.fields() {
                 if field.attrs.skip() {
@@ -234,24 +236,33 @@ fn on_fields(fields: &Fields, has_self: bool, encoding: Encoding) -> syn::Result
                     if field.is_name {
                         steps.push(quote! {
                             if !#is_nil(&self.#ident) {
-                                __len777 += (#n - __num777) + #tag + #cbor_len(&self.#ident, __ctx777);
-                                __num777 = #n + 1
+                                __len777 += (#n - __num777) + __nil777 + #tag + #cbor_len(&self.#ident, __ctx777);
+                                __num777 = #n + 1;
+                                __nil777 = 0
+                            } else {
+                                __nil777 += #tag
                             }
                         })
                     } else {
                         let i = syn::Index::from(field.pos);
                         steps.push(quote! {
                             if !#is_nil(&self.#i) {
-                                __len777 += (#n - __num777) + #tag + #cbor_len(&self.#i, __ctx777);
-                                __num777 = #n + 1
+                                __len777 += (#n - __num777) + __nil777 + #tag + #cbor_len(&self.#i, __ctx777);
+                                __num777 = #n + 1;
+                                __nil777 = 0
+                            } else {
+                                __nil777 += #tag
                             }
                         })
                     }
                 } else {
                     steps.push(quote! {
                         if !#is_nil(&#ident) {
-                            __len777 += (#n - __num777) + #tag + #cbor_len(&#ident, __ctx777);
-                            __num777 = #n + 1
+                            __len777 += (#n - __num777) + __nil777 + #tag + #cbor_len(&#ident, __ctx777);
+                            __num777 = #n + 1;
+                            __nil777 = 0
+                        } else {
+                            __nil777 += #tag
                         }
                     })
                 }
